@@ -204,6 +204,9 @@ class SimProcess:
         self.pid = self.sim.new_pid()
         self._popen = SimPopen(self)
         self.sim.register(self)
+        hook = getattr(self.sim, 'start_hook', None)
+        if hook is not None:
+            hook(self)
 
     @property
     def exitcode(self):
@@ -1230,6 +1233,50 @@ class Sim:
         self.closed = True
         self.labels.add('close')
 
+    def op_closerace(self):
+        """close() called by the user while the supervisor is inside start() of a
+        replacement worker: close() queues the feeder's sentinel before it waits
+        for the supervisor, so the feeder counts the workers to send exit
+        sentinels to (TaskHandler.tell_others) at that very moment."""
+        pool = self.pool
+        if self.closed or not self.config.get('threads', True) or not (
+                pool._worker_handler._state == bp.RUN and pool._state == bp.RUN):
+            return 'noop'
+        loss_pending = any(
+            p.owner is not None and not p.ready_delivered and
+            not self.by_pid[p.owner].alive
+            for mj in self.jobs if mj.handle is not None and not mj.discarded
+            and not mj.resolved() for p in mj.parts.values())
+        dead = [p for p in pool._pool if not p.alive]
+        if not self.allowed('close-unsupervised') and (
+                self.config.get('maxtasks') or loss_pending or
+                any(p.term_pending for p in pool._pool) or
+                any(p.outbox for p in dead)):
+            return self.exclude('close-with-exits-pending')
+        if not dead:
+            return 'noop'
+        fired = []
+
+        def hook(proc):
+            if fired:
+                return
+            fired.append(proc.pid)
+            self.unfinished_at_close = self.unresolved_count()
+            pool.close()
+            self.closed = True
+            self.drain_taskqueue()
+            self.labels.add('close')
+            self.labels.add('close_during_worker_start')
+        self.start_hook = hook
+        try:
+            res = self.op_tick()
+        finally:
+            self.start_hook = None
+        if not fired:
+            # nothing was started after all: an ordinary close
+            return self.op_close()
+        return res
+
     def op_join(self):
         if not self.closed or self.joined:
             return 'noop'
@@ -1511,7 +1558,13 @@ class Sim:
                       'wexit', 'join', 'quiesce', 'close', 'apply', 'map', 'imap',
                       'tick', 'discard', 'die')
 
+    # zones of findings that have since been repaired in /repo: open for good
+    # (the code that stepped around them is kept for triage on older trees)
+    REPAIRED_ZONES = ('imap-loss',)
+
     def allowed(self, zone):
+        if zone in self.REPAIRED_ZONES:
+            return True
         allow = self.config.get('allow')
         if allow is None:      # triage tools only
             allow = _real_os.environ.get('SIM_ALLOW', '').split(',')
